@@ -348,4 +348,3 @@ package aa
 //@   ensures imp(log["class"] == "" && log["family"] == "" && log["operation"] == "link", len(p.Rules) == len(old(p.Rules)) + 1 + ite((log["error"] == "-13" && ext("strings.Contains", log["info"], "namespace creation restricted")), 1, 0) && (typeIs(last(p.Rules), "*File") || typeIs(last(p.Rules), "*Link")))
 //@   ensures imp(log["class"] == "" && (log["family"] == "inet" || log["family"] == "inet6" || log["family"] == "netlink" || log["family"] == "packet") && (log["operation"] == "create" || log["operation"] == "connect" || log["operation"] == "bind" || log["operation"] == "listen" || log["operation"] == "accept" || log["operation"] == "sendmsg" || log["operation"] == "recvmsg" || log["operation"] == "getsockopt" || log["operation"] == "setsockopt") && !hasPrefix(log["operation"], "file_") && !ext("strings.Contains", log["operation"], "dbus"), len(p.Rules) == len(old(p.Rules)) + 1 + ite((log["error"] == "-13" && ext("strings.Contains", log["info"], "namespace creation restricted")), 1, 0) && typeIs(last(p.Rules), "*Network"))
 //@   ensures imp(log["class"] == "" && (log["family"] == "inet" || log["family"] == "inet6" || log["family"] == "netlink" || log["family"] == "packet") && (log["operation"] == "create" || log["operation"] == "connect" || log["operation"] == "bind" || log["operation"] == "listen" || log["operation"] == "accept" || log["operation"] == "sendmsg" || log["operation"] == "recvmsg" || log["operation"] == "getsockopt" || log["operation"] == "setsockopt") && !hasPrefix(log["operation"], "file_") && !ext("strings.Contains", log["operation"], "dbus"), as(last(p.Rules), "*Network").Domain == log["family"] && as(last(p.Rules), "*Network").Type == log["sock_type"] && as(last(p.Rules), "*Network").Protocol == log["protocol"])
-
